@@ -88,7 +88,7 @@ claimed = {
    note="Two genuine defects found: a block ACKed during link teardown whose message was then dropped is repaired (fix: commit); stale control characters consumed as handshake answers after a late grant remains a known finding (not a small repair). Overlaps of simultaneous sends are sampled; liveness is bounded (45 s send watchdog).",
    technique="fault-injecting middlebox between two real endpoints + offline exactly-once/order/retry-bound checker over the recorded line history"),
  "C19": dict(level=E,
-   text="Pure half: the two linktest decision functions (verif export) vs a reference written from the documented rules, exhaustive over a small ordered domain, and the whole failure-accounting loop folded over ALL ~300k (quick) / 2.4M (thorough) observation histories of length <=6/7 x threshold 1..4 x suppression on/off, plus two reducer-independent invariants. E2E half: scripted peers (silent, answering, alive-but-not-answering with suppression on/off, chatty, withheld reply, silent peer while the local side keeps sending) on real connections; probe counts seen by the peer, still-connected checks, sound lower bound on the drop time, ControlMetrics vs peer counts." + HELD,
+   text="Pure half: the two linktest decision functions (verif export) vs a reference written from the documented rules, exhaustive over a small ordered domain, and the whole failure-accounting loop folded over ALL ~300k (quick) / 2.4M (thorough) observation histories of length <=6/7 x threshold 1..4 x suppression on/off, plus two reducer-independent invariants. E2E half: scripted peers (silent, answering, alive-but-not-answering with suppression on/off, chatty, withheld reply, silent peer while the local side keeps sending, life shown by a frame whose inline handler outlasts T6) on real connections; probe counts seen by the peer, still-connected checks, sound lower bound on the drop time, ControlMetrics vs peer counts." + HELD,
    note="E2E timing is decided one-sidedly (counts and sound lower bounds); the chatty scenario needs a measured premise and is discarded otherwise.",
    technique="exhaustive reference-fold comparison of the real reducer + scripted-peer scenario monitors under the race detector"),
 }
